@@ -8,6 +8,8 @@ out=seeded/RESULTS.md
 { echo "# Seeded changes against the quick checks"; echo; echo "(written by tools/seedmatrix.sh on $(date -u +%Y-%m-%dT%H:%MZ); /verif at $(git rev-parse --short HEAD), /repo at $(git -C /repo rev-parse --short HEAD))"; echo; echo "| seed | property | verdict | replay kind | what no longer checks | message |"; echo "|---|---|---|---|---|---|"; } > $out
 for s in "${seeds[@]}"; do
   p=${s%%-*}
+  # a seed may name the property whose check is the one that must report it (meta.json "checked_by")
+  cb=$(python3 -c "import json;print(json.load(open('/verif/seeded/$s/meta.json')).get('checked_by',''))" 2>/dev/null); [ -n "$cb" ] && p=$cb
   git -C /repo apply /verif/seeded/$s/patch.diff || { echo "| $s | $p | PATCH-DOES-NOT-APPLY | | | |" >> $out; continue; }
   line=$(python3 check.py $p --tier quick 2>&1 | grep -E "^VIOLATION" | head -1)
   git -C /repo checkout -- . ; git -C /repo clean -fdq -- src examples tests 2>/dev/null
